@@ -141,10 +141,10 @@ static ENV_LOCK: Mutex<()> = Mutex::new(());
 // the mock is not `synced` and the wait is extended anyway, but an undeserializable event leaves the connection up.
 const PATIENCE: Duration = Duration::from_millis(12000);
 const AFTER_SYNC: Duration = Duration::from_millis(2000); // ... and at least this long after the mock had delivered everything
-const HARD_CAP: Duration = Duration::from_millis(45000);
+const HARD_CAP: Duration = Duration::from_millis(75000);
 const STABLE_FOR: Duration = Duration::from_millis(5000); // a wrong offer is only recorded once it has not changed for this long
 const RELIST_PATIENCE: Duration = Duration::from_millis(15000);
-const STEP_WAIT: Duration = Duration::from_millis(20000); // waiting for the client to (re)connect / ask for the LIST
+const STEP_WAIT: Duration = Duration::from_millis(60000); // waiting for the client to (re)connect / ask for the LIST
 
 async fn run_history(line: usize, hist: &Value, dir: &str) -> Value {
     let ns: Option<String> = if line % 2 == 0 { Some("games".to_string()) } else { None };
